@@ -52,6 +52,7 @@ type board struct {
 	serveReturned         bool
 	handlersAtServeReturn int // handlers still running when StreamServe returned
 	running               int
+	accepted, finished    int
 	panics                int
 }
 
